@@ -40,7 +40,7 @@ func switchKinds(info *types.Info, fd *ast.FuncDecl) map[string]*ast.CaseClause 
 func CheckC11(c *Ctx) {
 	run := c.Run
 	run.Technique = "typed-AST agreement lints between sibling encoder/decoder functions: handled reflect kinds, bit-size table, float/time format arguments, constant-folded os.OpenFile flag sets, header-map indexing, JSON delimiters"
-	run.Explanation = "Round-trip equality for all values depends on strconv, encoding/csv, encoding/json and time and is NOT decided. Decided are the structural agreements without which some value cannot round-trip: getReflectValue and setReflectValue handle the same reflect kinds; every sized numeric kind has a bit size in kindToBits, and the formatter and the parser use the same entry; floats are written with FormatFloat(v, fmt, -1, bits) (shortest representation that parses back exactly); time values are formatted and parsed with the same layout value; WriteToFile opens with O_CREATE|O_WRONLY|O_TRUNC (a shorter rewrite must not keep the old tail) and AppendToFile with O_APPEND|O_WRONLY; AppendOrWriteToCsvFile appends only to an existing non-empty file; the reader indexes each record through the header map; ChanToJSON emits and JSONToChan expects '[' ',' ']'."
+	run.Explanation = "Round-trip equality for all values depends on strconv, encoding/csv, encoding/json and time and is NOT decided. Decided are the structural agreements without which some value cannot round-trip: getReflectValue and setReflectValue handle the same reflect kinds; every sized numeric kind has a bit size in kindToBits, and the formatter and the parser use the same entry; floats are written with FormatFloat(v, fmt, -1, bits) (shortest representation that parses back exactly); time values are formatted and parsed with the same layout value; WriteToFile opens with O_CREATE|O_WRONLY|O_TRUNC (a shorter rewrite must not keep the old tail) and AppendToFile with O_APPEND|O_WRONLY; AppendOrWriteToCsvFile appends only to an existing non-empty file; the reader indexes each record through the header map; ChanToJSON emits and JSONToChan expects '[' ',' ']'. Column order: header i and cell i of every written row are taken from the same column descriptor at the loop's own position."
 	run.Trusted = []string{"go/types constant folding", "strconv/encoding/time semantics of the named functions"}
 	hp := c.P.Pkg("helper")
 	if hp == nil {
@@ -329,6 +329,89 @@ func CheckC11(c *Ctx) {
 	}
 	// JSON delimiters
 	c.jsonDelims(info)
+	// the written header and the written cells use the same positions
+	c.columnOrder(info)
+}
+
+// columnOrder: the writer emits header i and cell i of every row from the same column
+// descriptor: in both loops over c.columns the slice element assigned is indexed by the loop's
+// own position. A cell placed by any other index (e.g. the column's position in a file read
+// earlier) no longer sits under its header.
+func (c *Ctx) columnOrder(info *types.Info) {
+	run := c.Run
+	for _, mname := range []string{"writeToWriter", "writeHeaderToCsvWriter"} {
+		fi := c.fn("helper", "Csv", mname)
+		if fi == nil {
+			continue
+		}
+		found, bad := 0, ""
+		ast.Inspect(fi.Decl.Body, func(n ast.Node) bool {
+			rs, ok := n.(*ast.RangeStmt)
+			if !ok {
+				return true
+			}
+			sel, ok := rs.X.(*ast.SelectorExpr)
+			if !ok || sel.Sel.Name != "columns" {
+				return true
+			}
+			var keyObj, valObj types.Object
+			if k, ok := rs.Key.(*ast.Ident); ok {
+				keyObj = info.Defs[k]
+			}
+			if v, ok := rs.Value.(*ast.Ident); ok {
+				valObj = info.Defs[v]
+			}
+			ast.Inspect(rs.Body, func(m ast.Node) bool {
+				as, ok := m.(*ast.AssignStmt)
+				if !ok || len(as.Lhs) != 1 {
+					return true
+				}
+				ix, ok := as.Lhs[0].(*ast.IndexExpr)
+				if !ok {
+					return true
+				}
+				if t, ok := info.TypeOf(ix.X).Underlying().(*types.Slice); !ok || !types.Identical(t.Elem(), types.Typ[types.String]) {
+					return true
+				}
+				found++
+				id, isID := ix.Index.(*ast.Ident)
+				if !isID || keyObj == nil || info.Uses[id] != keyObj {
+					bad = fmt.Sprintf("%s[%s] is not indexed by the position of the column in the loop", types.ExprString(ix.X), types.ExprString(ix.Index))
+				}
+				// the value must come from this loop's column
+				usesCol := false
+				ast.Inspect(as.Rhs[0], func(q ast.Node) bool {
+					if qi, ok := q.(*ast.Ident); ok && valObj != nil && info.Uses[qi] == valObj {
+						usesCol = true
+					}
+					return true
+				})
+				if !usesCol {
+					// a local computed from the column earlier in the body is accepted
+					if rid, ok := as.Rhs[0].(*ast.Ident); ok {
+						if ro := info.Uses[rid]; ro != nil && ro.Pos() > rs.Body.Pos() && ro.Pos() < as.Pos() {
+							usesCol = true
+						}
+					}
+				}
+				if !usesCol && bad == "" {
+					bad = "the value written does not come from the loop's column"
+				}
+				return true
+			})
+			return true
+		})
+		run.Count("csv_write_positions", found)
+		ok := found >= 1 && bad == ""
+		run.Oblige(ok)
+		if !ok {
+			if bad == "" {
+				bad = "no positional write of the columns was found (undecided, fails closed)"
+			}
+			c.violate("codec-agreement/column-order", "helper.(*Csv)."+mname, short(bad, 100), fi.Decl.Pos(), "header and cells must be written from the same column descriptor at the same position: "+bad)
+		}
+	}
+	run.Floor("csv_write_positions", 2)
 }
 
 func (c *Ctx) openFlags(info *types.Info, method string, need, forbid []string, why string) {
